@@ -79,8 +79,12 @@ def classes():
     import anytree
     from anytree import AnyNode, LightNodeMixin, Node, NodeMixin, SymlinkNode
 
-    _CLASSES["mixin"] = type("PlainMixin", (NodeMixin,), dict(HOOKS))
-    _CLASSES["light"] = type("PlainLight", (LightNodeMixin,), dict(HOOKS, __slots__=()))
+    def _rep(self):
+        # the text of a node's repr is the user's business: it may contain anything, e.g. '%' (error messages are built from it)
+        return "<%s 100%% %%s %%(x)d>" % (CUR[0].label_of(self) if CUR[0] is not None else "?",)
+
+    _CLASSES["mixin"] = type("PlainMixin", (NodeMixin,), dict(HOOKS, __repr__=_rep))
+    _CLASSES["light"] = type("PlainLight", (LightNodeMixin,), dict(HOOKS, __slots__=(), __repr__=_rep))
     _CLASSES["node"] = type("HNode", (Node,), dict(HOOKS))
     _CLASSES["anynode"] = type("HAnyNode", (AnyNode,), dict(HOOKS))
     _CLASSES["symlink"] = type("HSymlink", (SymlinkNode,), dict(HOOKS))
@@ -117,6 +121,15 @@ KINDS = {
     "late:light": ("late:light",),
     # hooks stored on the INSTANCES (node._pre_detach = callback), the class has none
     "insthook": ("insthook",),
+    # links whose targets are nodes of an adversarial class (and the plain twin): what a link forwards must not depend on
+    # the target's truth value, length or comparison
+    "linkto:named": ("named", "named", "symlink>a", "symlink>b"),
+    "linkto:falsy": ("trap:falsy", "trap:falsy", "symlink>a", "symlink>b"),
+    "linkto:len0": ("trap:len0", "trap:len0", "symlink>a", "symlink>b"),
+    "linkto:eq": ("trap:eq", "trap:eq", "symlink>a", "symlink>b"),
+    "linkto:all": ("trap:all", "trap:all", "symlink>a", "symlink>b"),
+    # Node objects whose names (hence reprs and error messages) contain '%'
+    "pctnode": ("pctnode",),
 }
 
 
@@ -200,6 +213,8 @@ class Universe(object):
             node = make(cls["symlink"], target)
         elif ck == "node":
             node = make(cls["node"], lbl)
+        elif ck == "pctnode":
+            node = make(cls["node"], lbl + " 100% %s %(x)d")
         elif ck == "anynode":
             kw["id"] = lbl
             kw["name"] = lbl  # Node.__repr__ (used in error messages) needs a name on every ancestor of a Node
